@@ -89,10 +89,19 @@ def py_fp(t, v):
     raise KeyError(t)
 
 
+ENTRY_MUTS = ("", "view", "payable", "pure", "nonpayable")     # "" = undecorated
+
+
 class EFn:
-    def __init__(self, name, params, n_default):
-        """params: list of type keys; the last n_default are defaulted"""
-        self.name, self.params, self.nd = name, params, n_default
+    def __init__(self, name, params, n_default, mut=""):
+        """params: list of type keys; the last n_default are defaulted; mut: mutability decorator ("" = none).
+        Expected payability comes from the decorator text alone: only "payable" accepts value."""
+        assert mut in ENTRY_MUTS, mut
+        self.name, self.params, self.nd, self.mut = name, params, n_default, mut
+
+    @property
+    def payable(self):
+        return self.mut == "payable"
 
     @property
     def npos(self):
@@ -104,7 +113,7 @@ class EFn:
             d = TYPES[t]
             args.append(f"p{i}: {d['vy']}" + (f" = {d['lit']}" if i >= self.npos else ""))
         fps = ", ".join(TYPES[t]["fp"].format(v=f"p{i}") for i, t in enumerate(self.params))
-        return (f"@external\ndef {self.name}({', '.join(args)}) -> uint256[{len(self.params) + 1}]:\n"
+        return (f"@external\n{'@' + self.mut + chr(10) if self.mut else ''}def {self.name}({', '.join(args)}) -> uint256[{len(self.params) + 1}]:\n"
                 f"    return [{idx}, {fps}]\n")
 
     def variants(self):
@@ -126,13 +135,13 @@ def family(rnd, tier):
     for t in keys:
         # t positional, then two defaulted words; t defaulted followed by a defaulted word; t between two defaulted words
         for params, nd in (([t, "U", "U"], 2), (["U", t, "U"], 2), (["U", "U", t, "U"], 3)):
-            fns.append(EFn(f"e{k}", params, nd))
+            fns.append(EFn(f"e{k}", params, nd, ENTRY_MUTS[k % len(ENTRY_MUTS)]))
             k += 1
     n_rand = 12 if tier == "quick" else 60
     for _ in range(n_rand):
         n = rnd.randrange(2, 5)
         params = [rnd.choice(keys) for _ in range(n)]
-        fns.append(EFn(f"e{k}", params, rnd.randrange(1, n + 1)))
+        fns.append(EFn(f"e{k}", params, rnd.randrange(1, n + 1), rnd.choice(ENTRY_MUTS)))
         k += 1
     return fns
 
